@@ -29,7 +29,7 @@ RULE = ("statements from the structured generator (all kinds, six classes) with 
         "arguments, INSERT rows, SET, upsert updates and upsert WHERE, limit/offset, subqueries, CTE bodies and set-operation operands. Non-trivial = >= 2 "
         "parameterised values in >= 2 clauses, or a value below a nesting construct, or pagination under MSSQL/Oracle; distinct = distinct program. Enumerated family: 51 composite "
         "expression shapes (arithmetic, comparisons, IN list / value term / subquery, BETWEEN, CASE, functions, aggregates with FILTER / DISTINCT, window functions, tuples, arrays, NOT, "
-        "nested) with a distinct value in EVERY operand slot x 7 clauses x 6 classes (every case counts).")
+        "nested) with a distinct value in EVERY operand slot x 7 clauses x 6 classes (every case counts). The same with negative numbers in every slot, and PostgreSQL JSON operators with values on their right.")
 ASSUMPTIONS = [
     "placeholder styles: ? (generic, SQLite, MSSQL, Oracle), %s (MySQL), $n numbered from 1 (PostgreSQL) - vendor/driver documentation",
     "None is inlined as NULL by design; enum members, '*' and allow_parametrize=False values are inline in both renderings",
